@@ -7,6 +7,8 @@ def run(ctx: Ctx) -> None:
     t6_transforms.run_histories(ctx, max_len=2 if ctx.tier == "quick" else 3)
     t6_transforms.run_regrid(ctx)
     t6_transforms.run_unlink_slot(ctx)
+    t6_transforms.run_condition_copy(ctx)
+    ctx.floor("T6x.condition-copy", 6)
     t6_transforms.run_composite_histories(ctx)
     from ..tables import t67_transforms
     with ctx.only("T67.inverse-velocity"), ctx.parallel():  # inverse / link creation followed by reading the buffered field (shared with C07)
@@ -51,6 +53,8 @@ def mutants(prog):
         ("has_parameters of a linked transform: own slot only", P, "ParametricTransform.has_parameters", "return params.has_parameters()", "return False", "T6x.linked-linear"),
         ("bspline regrid: domain check by extent only", S, "BSplineTransform.grid_", "if not grid.same_domain_as(current_grid):", "if not torch.allclose(grid.cube_extent(), current_grid.cube_extent()):", "another domain"),
         ("bspline regrid: domain check dropped", S, "BSplineTransform.grid_", "if not grid.same_domain_as(current_grid):", "if False:", "another domain"),
+        ("condition(): keyword arguments not forwarded to the copy", B, "SpatialTransform.condition", "return shallow_copy(self).condition_(*args, **kwargs)", "return shallow_copy(self).condition_(*args)", "T6x.condition-copy"),
+        ("condition(): keyword-only call treated as the getter", B, "SpatialTransform.condition", "if args or kwargs:", "if args:", "T6x.condition-copy"),
     ]
     for name, mod, fn, old, new, expect in specs:
         ov = source_sub(prog, mod, fn, old, new)
